@@ -267,6 +267,11 @@ int KSI_TlvElement_serialize(const KSI_TlvElement *element, unsigned char *buf, 
 
 	/* Add the header length, if requested. */
 	if ((opt & KSI_TLV_OPT_NO_HEADER) == 0) {
+		/* The payload has to fit the 16-bit length field. */
+		if (dat_len > 0xffff) {
+			res = KSI_BUFFER_OVERFLOW;
+			goto cleanup;
+		}
 		buf_len += hdr_len;
 	}
 
